@@ -416,6 +416,19 @@ def f23():
     return ok, f"household impact held by the events: {[None if g is None else float(g.sum()) for g in got]}"
 
 
+@trigger("F24", ["C09", "C10"])
+def f24():
+    """concave recovery with recovery_tau = 1 and a step of 3 temporal units: the damage must never increase (known finding)"""
+    tb = base_table()
+    cfg = base_cfg(dt=3)
+    ev = rec_event(tb, cfg, frac=0.1, occ=4, dur=1, tau=1, curve="concave")
+    sim = run_loop(mk_sc(tb, cfg, [ev], T=30))
+    rec = sim.productive_capital_to_recover.to_numpy()[::3]
+    tot = np.nansum(rec, axis=1)
+    inc = [(i * 3, float(a), float(b)) for i, (a, b) in enumerate(zip(tot[2:], tot[3:]), start=2) if b > a * (1 + 1e-12) and a > 0]
+    return not inc, f"recorded destroyed capital increases during recovery at {inc[:2]}"
+
+
 def run_all(props=None, only=None):
     res = {}
     for fid, t in TRIGGERS.items():
